@@ -371,6 +371,8 @@ impl<Aux> Vm<'_, Aux> {
             let instr: u8 = unsafe { *bytecode_ptr.add(*instr_ptr) };
             let instr: Instruction = unsafe { transmute(instr) };
             let src_ptr = *instr_ptr;
+            #[cfg(feature = "verif-hooks")]
+            self.runtime_data.verif_on_dispatch(instr as u8);
             *instr_ptr += 1;
             debug!("Executing: {instr:?} instr_ptr: {instr_ptr}");
             match instr {
